@@ -1,8 +1,10 @@
 (* Model of the part of the `glob` crate (0.3.2) that okane's loader uses: Pattern::new and
-   Pattern::matches_with for literal characters, `?` and `*`, under
+   Pattern::matches_with for literal characters, `?`, `*` and character classes `[...]` /
+   `[!...]`, under
    MatchOptions { case_sensitive: true, require_literal_separator: true,
                   require_literal_leading_dot: true }   (core/src/load.rs glob_match_options).
-   `**` and `[...]` are outside the model: parse_pattern answers None for them.
+   `**` (two or more stars in a row: the recursive wildcard, or a PatternError) is outside the
+   model: parse_pattern answers Recursive for it.
    Strings are lists of Unicode scalar values (Pattern works on chars).  Definitions only. *)
 From Coq Require Import List NArith Bool.
 Import ListNotations.
@@ -15,26 +17,97 @@ Definition DOT : N := 46.
 Definition STAR : N := 42.
 Definition QUESTION : N := 63.
 Definition LBRACKET : N := 91.
+Definition RBRACKET : N := 93.
+Definition BANG : N := 33.
+Definition DASH : N := 45.
 
 Definition is_sep (c : N) : bool := c =? SLASH.
 
-Inductive token := Char (c : N) | AnyChar | AnySequence.
+(* enum CharSpecifier *)
+Inductive cspec := SingleChar (c : N) | CharRange (lo hi : N).
 
-(* Pattern::new: `?` -> AnyChar; a single `*` -> AnySequence; anything else but `[` -> Char.
-   Two or more `*` in a row (recursive wildcard or error) and `[` (character class or error)
-   leave the model. *)
-Fixpoint parse_pattern (s : str) : option (list token) :=
+Inductive token :=
+| Char (c : N) | AnyChar | AnySequence
+| AnyWithin (cs : list cspec) | AnyExcept (cs : list cspec).
+
+(* parse_char_specifiers: `a-b` (three characters, the middle one a dash) is a range, taken
+   greedily from the left; anything else is a single character (so a dash that is first, last,
+   or right after a range stands for itself) *)
+Fixpoint char_specifiers (s : str) : list cspec :=
   match s with
-  | [] => Some []
+  | [] => []
+  | a :: t =>
+      match t with
+      | d :: b :: r => if d =? DASH then CharRange a b :: char_specifiers r
+                       else SingleChar a :: char_specifiers t
+      | _ => SingleChar a :: char_specifiers t
+      end
+  end.
+
+(* in_char_specifiers with case_sensitive = true: chars_eq is ==, a range is start <= c <= end
+   on scalar values (an empty range when start > end) *)
+Fixpoint in_specs (cs : list cspec) (c : N) : bool :=
+  match cs with
+  | [] => false
+  | SingleChar a :: r => (c =? a) || in_specs r c
+  | CharRange lo hi :: r => ((lo <=? c) && (c <=? hi)) || in_specs r c
+  end.
+
+(* Result<Pattern, PatternError>, plus the way out of the model *)
+Inductive parsed :=
+| Tokens (ts : list token)
+| PatternError          (* ERROR_INVALID_RANGE: a `[` without its `]` *)
+| Recursive.            (* `**`...: outside the model *)
+
+Definition push (t : token) (p : parsed) : parsed :=
+  match p with Tokens ts => Tokens (t :: ts) | e => e end.
+
+(* Pattern::new.  `?` -> AnyChar; a single `*` -> AnySequence; any other character but `[` -> Char.
+   `[`: when the next character is `!` (and at least two more follow) the class body starts
+   after the `!`, otherwise right after the `[`; its first character is taken as it is (so a
+   `]` there is a member of the class) and the body runs up to the next `]`; the characters
+   between are read by parse_char_specifiers; when there is no such `]` the pattern is
+   invalid — whatever follows.  (`[]`, `[!]`, `[!` and `[` at the end are invalid for the same
+   reason: the search for `]` starts after the first body character.)
+   The inner fix is chars[..].iter().position(|x| *x == ']') with the body read so far. *)
+Fixpoint parse_pattern (s : str) : parsed :=
+  match s with
+  | [] => Tokens []
   | c :: r =>
-      if c =? QUESTION then option_map (cons AnyChar) (parse_pattern r)
+      if c =? QUESTION then push AnyChar (parse_pattern r)
       else if c =? STAR then
         match r with
-        | d :: _ => if d =? STAR then None else option_map (cons AnySequence) (parse_pattern r)
-        | [] => Some [AnySequence]
+        | d :: _ => if d =? STAR then Recursive else push AnySequence (parse_pattern r)
+        | [] => Tokens [AnySequence]
         end
-      else if c =? LBRACKET then None
-      else option_map (cons (Char c)) (parse_pattern r)
+      else if c =? LBRACKET then
+        match r with
+        | [] => PatternError
+        | y :: r2 =>
+            if y =? BANG then
+              match r2 with
+              | [] => PatternError
+              | x :: r3 =>
+                  (fix scan (acc : str) (l : str) : parsed :=
+                     match l with
+                     | [] => PatternError
+                     | d :: l' =>
+                         if d =? RBRACKET
+                         then push (AnyExcept (char_specifiers (x :: rev acc))) (parse_pattern l')
+                         else scan (d :: acc) l'
+                     end) [] r3
+              end
+            else
+              (fix scan (acc : str) (l : str) : parsed :=
+                 match l with
+                 | [] => PatternError
+                 | d :: l' =>
+                     if d =? RBRACKET
+                     then push (AnyWithin (char_specifiers (y :: rev acc))) (parse_pattern l')
+                     else scan (d :: acc) l'
+                 end) [] r2
+        end
+      else push (Char c) (parse_pattern r)
   end.
 
 Inductive mresult := Match | SubPatternDoesntMatch | EntirePatternDoesntMatch.
@@ -42,7 +115,9 @@ Inductive mresult := Match | SubPatternDoesntMatch | EntirePatternDoesntMatch.
 (* Pattern::matches_from(follows_separator, file, i, options), by recursion on tokens[i..].
    The AnySequence arm: first the empty match; then the while loop consuming one character at
    a time (a leading dot after a separator, or a separator, ends the attempt); when the loop
-   runs out of characters the enclosing for loop goes on with the remaining tokens. *)
+   runs out of characters the enclosing for loop goes on with the remaining tokens.
+   AnyChar, AnyWithin and AnyExcept share the guard: a separator, or a dot right after a
+   separator, is never matched by them — before the class is even looked at. *)
 Fixpoint matches_from (ts : list token) : bool -> str -> mresult :=
   match ts with
   | [] => fun _ file => match file with [] => Match | _ => SubPatternDoesntMatch end
@@ -57,6 +132,22 @@ Fixpoint matches_from (ts : list token) : bool -> str -> mresult :=
       | c :: file' =>
           if is_sep c || (follows && (c =? DOT)) then SubPatternDoesntMatch
           else matches_from rest (is_sep c) file'
+      end
+  | AnyWithin cs :: rest => fun follows file =>
+      match file with
+      | [] => EntirePatternDoesntMatch
+      | c :: file' =>
+          if is_sep c || (follows && (c =? DOT)) then SubPatternDoesntMatch
+          else if in_specs cs c then matches_from rest (is_sep c) file'
+          else SubPatternDoesntMatch
+      end
+  | AnyExcept cs :: rest => fun follows file =>
+      match file with
+      | [] => EntirePatternDoesntMatch
+      | c :: file' =>
+          if is_sep c || (follows && (c =? DOT)) then SubPatternDoesntMatch
+          else if negb (in_specs cs c) then matches_from rest (is_sep c) file'
+          else SubPatternDoesntMatch
       end
   | AnySequence :: rest => fun follows file =>
       match matches_from rest follows file with
@@ -80,9 +171,9 @@ Fixpoint matches_from (ts : list token) : bool -> str -> mresult :=
 Definition matches_with (ts : list token) (s : str) : bool :=
   match matches_from ts true s with Match => true | _ => false end.
 
-(* Pattern::new(p)?.matches_with(s): None = pattern outside the model *)
+(* Pattern::new(p)?.matches_with(s): None = invalid pattern or pattern outside the model *)
 Definition glob_match (pattern s : str) : option bool :=
   match parse_pattern pattern with
-  | Some ts => Some (matches_with ts s)
-  | None => None
+  | Tokens ts => Some (matches_with ts s)
+  | _ => None
   end.
